@@ -381,6 +381,19 @@ func rawBinding(v4, v6 []byte, valid4, valid6, mode byte) []byte {
 }
 
 var theMac = []byte{0x02, 0x11, 0x22, 0x33, 0x44, 0x55}
+
+// sender MACs of the raw stream: the key of a raw binding is written by the harness in the documented form
+// (48-bit big-endian number in a little-endian u64), so every octet position carries high-bit / all-ones /
+// zero values somewhere - the program's own mac_to_u64 must arrive at the same 8 bytes
+var rawMacs = [][]byte{
+	{0x02, 0x11, 0x22, 0x33, 0x44, 0x55},
+	{0x02, 0x11, 0xa2, 0x33, 0x44, 0x55},
+	{0xfe, 0xff, 0xff, 0xff, 0xff, 0xff},
+	{0x80, 0x00, 0x80, 0x00, 0x80, 0x00},
+	{0x00, 0x80, 0x00, 0x80, 0x00, 0x80},
+	{0x7f, 0x7f, 0x7f, 0x80, 0x01, 0xff},
+	{0x00, 0x00, 0x00, 0x00, 0x00, 0x00},
+}
 var bound4 = []byte{10, 20, 30, 40}
 var bound6 = []byte{0x20, 0x01, 0x0d, 0xb8, 0, 1, 0, 2, 0, 0, 0, 0, 0xa, 0xb, 0xc, 0xd}
 
@@ -401,6 +414,10 @@ func genRaw(r *vh.Rng, thorough bool) []Case {
 				}
 				for _, rk := range rks {
 					c := Case{}
+					theMac := rawMacs[len(cs)%len(rawMacs)]
+					if len(cs)%11 == 10 {
+						theMac = r.Bytes(6)
+					}
 					c.Ops = append(c.Ops, Op{K: "putc", Val: []byte{dm, byte(r.Intn(2)), 0, 0, 0, 0, 0, 0}})
 					switch kind {
 					case 1:
@@ -449,6 +466,22 @@ func genMgr(r *vh.Rng, thorough bool) Case {
 	var subs []sub
 	for i := 0; i < nm; i++ {
 		mac := []byte{2, 0, 0, 0, byte(r.Intn(2)), byte(1 + i)}
+		switch r.Intn(4) {
+		case 0: // any octets
+			mac = r.Bytes(6)
+			mac[5] = mac[5]&0xfc | byte(i)
+		case 1: // boundary octets
+			bo := []byte{0x00, 0x01, 0x7f, 0x80, 0xff}
+			for j := range mac {
+				mac[j] = bo[r.Intn(len(bo))]
+			}
+			mac[5] = mac[5]&0xfc | byte(i)
+		case 2: // neighbours that differ only in the top bit of one octet
+			mac = []byte{0x02, 0x13, 0x24, 0x35, 0x46, 0x57}
+			if i > 0 {
+				mac[r.Intn(6)] ^= 0x80
+			}
+		}
 		var v4 []byte
 		if guard || r.Chance(1, 4) {
 			v4 = palin4[r.Intn(len(palin4))]
@@ -514,7 +547,19 @@ func genMgr(r *vh.Rng, thorough bool) Case {
 				v := variants6(r, t.v6, thorough)
 				c.Ops = append(c.Ops, Op{K: "frame", F: frame(t.mac, 0x86dd, v[r.Intn(len(v))], 54+r.Intn(3))})
 			case 6:
-				c.Ops = append(c.Ops, Op{K: "frame", F: frame([]byte{2, 9, 9, 9, 9, 9}, 0x0800, t.v4, 34)}) // unknown MAC
+				um := []byte{2, 9, 9, 9, 9, 9}
+				if r.Chance(1, 2) { // a neighbour of a bound MAC: one bit of one octet differs
+					um = append([]byte(nil), t.mac...)
+					um[r.Intn(6)] ^= []byte{0x80, 0x01, 0x40}[r.Intn(3)]
+					known := false
+					for _, x := range subs {
+						known = known || string(x.mac) == string(um)
+					}
+					if known {
+						um = []byte{2, 9, 9, 9, 9, 9}
+					}
+				}
+				c.Ops = append(c.Ops, Op{K: "frame", F: frame(um, 0x0800, t.v4, 34)}) // unknown MAC
 			case 7:
 				c.Ops = append(c.Ops, Op{K: "frame", F: frame(t.mac, []uint16{0x0806, 0x8100, 0x0800, 0x86dd}[r.Intn(4)], t.v4, []int{0, 10, 14, 20, 33, 40, 53}[r.Intn(7)])})
 			}
@@ -530,8 +575,8 @@ func genMgr(r *vh.Rng, thorough bool) Case {
 // never-bound MAC.
 func genLife(maxLen int) []Case {
 	var cs []Case
-	mac := []byte{2, 0xaa, 0, 0, 0, 1}
-	other := []byte{2, 0xaa, 0, 0, 0, 2}
+	mac := []byte{0x02, 0xaa, 0xc3, 0x00, 0x7f, 0x01}
+	other := []byte{0x02, 0xaa, 0x43, 0x00, 0x7f, 0x01} // never bound; differs from mac in the top bit of octet 2 only
 	v6 := []byte{0x20, 0x01, 0x0d, 0xb8, 0, 7, 0, 0, 0, 0, 0, 0, 0, 0, 0x12, 0x34}
 	v6b := append([]byte(nil), v6...)
 	v6b[15] ^= 1
@@ -589,6 +634,211 @@ func genLife(maxLen int) []Case {
 			cs = append(cs, c)
 		}
 	}
+	return cs
+}
+
+// key-derivation stream: the binding is written by the real Manager (Go macToUint64, marshalled by cilium), the
+// lookup key is computed by the real program (C mac_to_u64) from the frame's source MAC.  EXHAUSTIVE over
+// {0x00, 0x01, 0x7f, 0x80, 0xff} in each of the six octet positions on three backgrounds (distinct small octets,
+// all zero, all ones), plus random MACs.  Per MAC: strict everywhere, then bindings strict / default log-only
+// (a lookup miss is then visible in BOTH directions: bound source dropped, spoofed source forwarded); raw map
+// dump after the writes; traffic from the MAC and from its neighbours (one bit of the swept octet differs);
+// removal.
+func genKeys(r *vh.Rng, thorough bool) []Case {
+	var macs [][]byte
+	seen := map[string]bool{}
+	addMac := func(m []byte) {
+		if !seen[string(m)] {
+			seen[string(m)] = true
+			macs = append(macs, m)
+		}
+	}
+	bases := [][]byte{{0x02, 0x13, 0x24, 0x35, 0x46, 0x57}, {0, 0, 0, 0, 0, 0}, {0xff, 0xff, 0xff, 0xff, 0xff, 0xff}}
+	pos := make([]int, 0, len(macs))
+	for _, b := range bases {
+		for p := 0; p < 6; p++ {
+			for _, v := range []byte{0x00, 0x01, 0x7f, 0x80, 0xff} {
+				m := append([]byte(nil), b...)
+				m[p] = v
+				n := len(macs)
+				addMac(m)
+				if len(macs) > n {
+					pos = append(pos, p)
+				}
+			}
+		}
+	}
+	nr := 24
+	if thorough {
+		nr = 150
+	}
+	for i := 0; i < nr; i++ {
+		n := len(macs)
+		addMac(r.Bytes(6))
+		if len(macs) > n {
+			pos = append(pos, r.Intn(6))
+		}
+	}
+	v6 := []byte{0x20, 0x01, 0x0d, 0xb8, 0, 9, 0, 0, 0, 0, 0, 0, 0, 0, 0x56, 0x78}
+	v6b := append([]byte(nil), v6...)
+	v6b[8] ^= 0x80
+	var cs []Case
+	for i, mac := range macs {
+		v4 := palin4[i%len(palin4)]
+		v4b := append([]byte(nil), v4...)
+		v4b[1] ^= 0x80
+		nb1 := append([]byte(nil), mac...)
+		nb1[pos[i]] ^= 0x80
+		nb2 := append([]byte(nil), mac...)
+		nb2[pos[i]] ^= 0x01
+		c := Case{}
+		traffic := func(ms ...[]byte) {
+			for _, m := range ms {
+				c.Ops = append(c.Ops, Op{K: "frame", F: frame(m, 0x0800, v4, 34)}, Op{K: "frame", F: frame(m, 0x0800, v4b, 34)},
+					Op{K: "frame", F: frame(m, 0x86dd, v6, 54)}, Op{K: "frame", F: frame(m, 0x86dd, v6b, 54)})
+			}
+		}
+		c.Ops = append(c.Ops, Op{K: "mode", M: 1}, Op{K: "add", Mac: mac, IP: v4}, Op{K: "add6", Mac: mac, IP: v6}, Op{K: "snap"})
+		traffic(mac, nb1, nb2)
+		c.Ops = append(c.Ops, Op{K: "mode", M: 3}, Op{K: "new", M: 1}, Op{K: "add", Mac: mac, IP: v4}, Op{K: "add6", Mac: mac, IP: v6}, Op{K: "snap"})
+		traffic(mac, nb1)
+		c.Ops = append(c.Ops, Op{K: "rm", Mac: nb2}, Op{K: "snap"}) // removing a neighbour must not touch the entry
+		traffic(mac)
+		c.Ops = append(c.Ops, Op{K: "rm", Mac: mac}, Op{K: "snap"}, Op{K: "mode", M: 1})
+		traffic(mac)
+		cs = append(cs, c)
+	}
+	return cs
+}
+
+// length stream: EXHAUSTIVE over every frame length 0..lmax for each ethertype {IPv4, IPv6, VLAN-tagged IPv4, ARP}
+// with the bound and with a spoofed source, for a sender under strict validation (raw binding, both families
+// valid) and for an unbound sender under a strict default - every truncation length around every header
+// boundary (Ethernet 14, VLAN 18, IPv4 34, IPv6 54), frame end flush against the guard page.
+func genLens(thorough bool) []Case {
+	lmax := 62
+	if thorough {
+		lmax = 130
+	}
+	mac := []byte{0x02, 0x5e, 0x90, 0x01, 0xfe, 0x7f}
+	v4 := []byte{10, 20, 30, 40}
+	v4s := []byte{10, 20, 30, 41}
+	v6 := bound6
+	v6s := append([]byte(nil), bound6...)
+	v6s[15] ^= 0x80
+	var cs []Case
+	for _, bound := range []bool{true, false} {
+		for _, et := range []uint16{0x0800, 0x86dd, 0x8100, 0x0806} {
+			c := Case{}
+			c.Ops = append(c.Ops, Op{K: "putc", Val: []byte{1, 1, 0, 0, 0, 0, 0, 0}})
+			if bound {
+				c.Ops = append(c.Ops, Op{K: "putb", Mac: mac, Val: rawBinding(v4, v6, 1, 1, 1)})
+			}
+			for n := 0; n <= lmax; n++ {
+				good, bad := v4, v4s
+				if et == 0x86dd {
+					good, bad = v6, v6s
+				}
+				c.Ops = append(c.Ops, Op{K: "frame", F: frame(mac, et, good, n)}, Op{K: "frame", F: frame(mac, et, bad, n)})
+			}
+			cs = append(cs, c)
+		}
+	}
+	return cs
+}
+
+// mode matrix through the real Manager: EXHAUSTIVE over default mode (SetMode 0..3) x mode written into the
+// bindings (NewManager 0..3; 0 means strict) x {palindromic, ordinary} IPv4 address, with and without an allowed
+// range covering the subscriber when loose mode is involved; dual-stack binding; traffic from the subscriber and
+// from an unbound neighbour MAC.
+func genMatrix(r *vh.Rng) []Case {
+	var cs []Case
+	mac := []byte{0x02, 0x77, 0x88, 0x99, 0xaa, 0xbb}
+	other := []byte{0x02, 0x77, 0x08, 0x99, 0xaa, 0xbb}
+	v6 := []byte{0x20, 0x01, 0x0d, 0xb8, 0, 3, 0, 0, 0, 0, 0, 0, 0, 0, 0x9a, 0xbc}
+	v6b := append([]byte(nil), v6...)
+	v6b[0] ^= 0x01
+	for dm := uint8(0); dm < 4; dm++ {
+		for bm := uint8(0); bm < 4; bm++ {
+			for ai, v4 := range [][]byte{{10, 1, 1, 10}, {10, 20, 30, 40}} {
+				rks := []int{0}
+				if dm == 2 || bm == 2 {
+					rks = []int{0, 1, 2}
+				}
+				for _, rk := range rks {
+					if ai == 1 && rk == 2 {
+						continue
+					}
+					c := Case{}
+					c.Ops = append(c.Ops, Op{K: "mode", M: dm}, Op{K: "new", M: bm})
+					switch rk {
+					case 1: // a /24 that contains the subscriber (as the operator writes it)
+						c.Ops = append(c.Ops, Op{K: "range", IP: []byte{v4[0], v4[1], v4[2], 0}, Ones: 24})
+					case 2: // a palindromic /32: the byte order of the stored range does not matter
+						c.Ops = append(c.Ops, Op{K: "range", IP: v4, Ones: 32})
+					}
+					v4b := append([]byte(nil), v4...)
+					v4b[2] ^= 0x40
+					probe := func() {
+						c.Ops = append(c.Ops, Op{K: "snap"})
+						for _, m := range [][]byte{mac, other} {
+							c.Ops = append(c.Ops, Op{K: "frame", F: frame(m, 0x0800, v4, 34)}, Op{K: "frame", F: frame(m, 0x0800, v4b, 60)},
+								Op{K: "frame", F: frame(m, 0x86dd, v6, 54)}, Op{K: "frame", F: frame(m, 0x86dd, v6b, 80)},
+								Op{K: "frame", F: frame(m, 0x0806, v4, 42)})
+						}
+					}
+					c.Ops = append(c.Ops, Op{K: "add", Mac: mac, IP: v4})
+					probe()
+					c.Ops = append(c.Ops, Op{K: "add6", Mac: mac, IP: v6})
+					probe()
+					c.Ops = append(c.Ops, Op{K: "rm", Mac: mac})
+					probe()
+					cs = append(cs, c)
+				}
+			}
+		}
+	}
+	return cs
+}
+
+// second lifecycle stream: EVERY sequence of length 1..maxLen over the richer alphabet
+// {AddBinding A, AddBinding B, AddBinding nil (address withdrawn), AddBinding <IPv6> (not an IPv4 address),
+//
+//	 AddBinding A in its 16-byte v4-mapped form,
+//
+//		AddBindingV6 X, AddBindingV6 Y, AddBindingV6 nil, RemoveBinding} for one MAC in strict mode (palindromic
+//
+// addresses: inside the byte-order guard); map dump and verdicts for A, B, X, Y after every call.
+func genLife2(maxLen int) []Case {
+	mac := []byte{0x02, 0xb0, 0x9c, 0x10, 0x00, 0xf1}
+	a4, b4 := []byte{10, 1, 1, 10}, []byte{100, 64, 64, 100}
+	x6 := []byte{0x20, 0x01, 0x0d, 0xb8, 0, 5, 0, 0, 0, 0, 0, 0, 0, 0, 0x11, 0x11}
+	y6 := []byte{0x20, 0x01, 0x0d, 0xb8, 0, 5, 0, 0, 0, 0, 0, 0, 0, 0, 0x22, 0x22}
+	a4mapped := append([]byte{0, 0, 0, 0, 0, 0, 0, 0, 0, 0, 0xff, 0xff}, a4...) // the 16-byte form net.ParseIP returns for an IPv4 address
+	alphabet := []Op{{K: "add", Mac: mac, IP: a4}, {K: "add", Mac: mac, IP: b4}, {K: "add", Mac: mac, IP: nil}, {K: "add", Mac: mac, IP: x6},
+		{K: "add", Mac: mac, IP: a4mapped},
+		{K: "add6", Mac: mac, IP: x6}, {K: "add6", Mac: mac, IP: y6}, {K: "add6", Mac: mac, IP: nil}, {K: "rm", Mac: mac}}
+	var cs []Case
+	var rec func(cur []Op)
+	rec = func(cur []Op) {
+		if len(cur) > 0 {
+			c := Case{Ops: []Op{{K: "mode", M: 1}}}
+			for _, o := range cur {
+				c.Ops = append(c.Ops, o, Op{K: "snap"},
+					Op{K: "frame", F: frame(mac, 0x0800, a4, 34)}, Op{K: "frame", F: frame(mac, 0x0800, b4, 34)},
+					Op{K: "frame", F: frame(mac, 0x86dd, x6, 54)}, Op{K: "frame", F: frame(mac, 0x86dd, y6, 54)},
+					Op{K: "frame", F: frame(mac, 0x0800, []byte{0, 0, 0, 0}, 34)}, Op{K: "frame", F: frame(mac, 0x86dd, make([]byte, 16), 54)})
+			}
+			cs = append(cs, c)
+		}
+		if len(cur) == maxLen {
+			return
+		}
+		for _, o := range alphabet {
+			rec(append(append([]Op(nil), cur...), o))
+		}
+	}
+	rec(nil)
 	return cs
 }
 
@@ -677,6 +927,14 @@ func main() {
 		lifeLen = 5
 	}
 	vh.Emit(cfg, "life", header, footer, runAll(genLife(lifeLen)), m())
+	vh.Emit(cfg, "keys", header, footer, runAll(genKeys(r.Fork(), cfg.Thorough())), m())
+	vh.Emit(cfg, "lens", header, footer, runAll(genLens(cfg.Thorough())), m())
+	vh.Emit(cfg, "matrix", header, footer, runAll(genMatrix(r.Fork())), m())
+	life2Len := 2
+	if cfg.Thorough() {
+		life2Len = 3
+	}
+	vh.Emit(cfg, "life2", header, footer, runAll(genLife2(life2Len)), m())
 	n := 150
 	if cfg.Thorough() {
 		n = 1200
